@@ -29,7 +29,10 @@ def describe():
 def units(tier, seed):
     q = tier == "quick"
     out = []
-    for u in common.doc_units(PROPERTY_ID, c01.scope_specs(tier, seed)[: (5 if q else 99)], per_scope_blocks=8 if q else 16):
+    step_specs = c01.scope_specs(tier, seed)[: (5 if q else 99)]
+    if q:
+        step_specs.append({"sid": "list", "family": "astral", "size": 5, "donor": ("astral", 4)})
+    for u in common.doc_units(PROPERTY_ID, step_specs, per_scope_blocks=8 if q else 16):
         u["kind"] = "steps"
         out.append(u)
     specs = [
@@ -77,6 +80,12 @@ def check_map(model, step, before_node, after_node, res, case, size, T0=None):
         res.nontrivial += 1
     if len(T1) - len(T0) != delta or after_node.content.size - before_node.content.size != delta:
         res.violate("c03.size", case, len(T1) - len(T0), delta, size=size)
+        return
+    # for_each reports the same ranges, in old and new coordinates
+    got_fe = []
+    sm.for_each(lambda a, b, c, d: got_fe.append((a, b, c, d)))
+    if got_fe != rm.for_each(tr):
+        res.violate("c03.for_each", case, got_fe, rm.for_each(tr), size=size)
         return
     # well-formedness of the ranges
     last = 0
